@@ -21,9 +21,11 @@ THEOREMS = {
                                          "Tr.C03_answer", "Tr.calculateSingle_no_exception", "Tr.optimizeJourney_terminates", "Tr.reconLoop_terminates",
                                          "Tr.nv_hypotheses", "Tr.nv_hypotheses_complete", "Tr.nv_admissible_forward", "Tr.nv_results"]),
     "C06": ("TrVerif.Props.C06", ["Tr.C06_totals", "Tr.C06_route"]),
-    "C07": ("TrVerif.Props.C07All", ["Tr.C07_scan_start", "Tr.C07_route_no_service_to_destination", "Tr.revScan_count_zero", "Tr.revIndex_spec", "Tr.C07_route_strings", "Tr.C07_accessibility_strings", "Tr.C07_enum_order", "Tr.C07_access",
+    "C07": ("TrVerif.Props.NonVacuity", ["Tr.C07_scan_start", "Tr.C07_route_no_service_to_destination", "Tr.revScan_count_zero", "Tr.revIndex_spec", "Tr.C07_route_strings", "Tr.C07_accessibility_strings", "Tr.C07_enum_order", "Tr.C07_access",
                                       "Tr.C07_route_no_service_from_origin", "Tr.C07_no_service_from_origin_data", "Tr.C07_no_service_from_origin",
-                                      "Tr.C07_no_service_at_place_forward", "Tr.fwdScan_count_zero", "Tr.fwdIndex_spec", "Tr.before_start_early"]),
+                                      "Tr.C07_no_service_at_place_forward", "Tr.fwdScan_count_zero", "Tr.fwdIndex_spec", "Tr.before_start_early",
+                                      "Tr.C07_departure_never_to_destination", "Tr.secondPass_counts", "Tr.C07_arrival_never_from_origin",
+                                      "Tr.C07_no_service_at_place_reverse", "Tr.C07_no_access_at_place", "Tr.nv_hypotheses", "Tr.nv_results"]),
     # module NonVacuity imports C08Complete and C09Complete (hence C02, C07Data, C08, C09, C18): a concrete dataset meeting every hypothesis, on which all four calculations succeed
     "C08": ("TrVerif.Props.NonVacuity", ["Tr.C07_scan_start", "Tr.C08_sound", "Tr.C08_complete", "Tr.C08_earliest", "Tr.forwardNode_sound", "Tr.fwdScanList_inv", "Tr.fwdStep_inv", "Tr.init_FInv",
                                          "Tr.fwdScanList_FC", "Tr.fwdStep_FC", "Tr.init_FC", "Tr.FW_dataset", "Tr.fwdIndex_spec",
@@ -112,16 +114,19 @@ _reg("C04", "PROOF (full, over the model, on the property's own domain): Tr.C04_
 _reg("C06", "PROOF (full, over the model): Tr.C06_totals - the clock chain and every total/identity of the property hold for every journey value the emission pass "
      "can produce; Tr.C06_route lifts it to every route returned on a well-formed dataset. " + _M + "; " + _O + ".",
      "Lean 4 theorem over the emission model + differential correspondence")
-_reg("C07", "PROOF (partial): Tr.C07_access - the NO_ACCESS_* trichotomy is returned exactly when the router offers no stop at both ends / origin / destination; "
+_reg("C07", "PROOF (over the model; every clause of the classification): Tr.C07_access - the NO_ACCESS_* trichotomy is returned exactly when the router offers no stop at both ends / origin / destination; "
      "Tr.C07_route_no_service_from_origin - for every dataset, scenario and departure-time query inside [0, 32 h) with non-negative access walks, /v2/route answers NO_SERVICE_FROM_ORIGIN exactly "
      "when NO connection of an admitted trip can be caught from an access stop within the limits (CaughtF: leaves no earlier than request + shortest access walk, trip not excluded, within "
-     "max_travel_time, boarding stop reached by the access walk no later than departure - minimum waiting, first-waiting cap); Tr.C07_no_service_at_place_forward: the same for departure-time "
-     "accessibility; proved via 'the forward pass counts nothing iff no scanned connection is caught' and the transparency of the hour index (Tr.fwdIndex_spec: everything before the start "
-     "position leaves before the requested hour). Both reason-to-string switches and the enum order are regenerated from the source. Tr.C07_route_no_service_to_destination: "
-     "the mirror image for arrival-time queries (no connection of an admitted trip arrives at an offered stop early enough to walk to the destination by the requested time, within "
-     "max_travel_time: CaughtR). NOT proved: the second pass of a departure-time query (it can also answer NO_SERVICE_TO_DESTINATION), arrival-time accessibility, and that NO_ROUTING_FOUND is "
-     "returned only when no journey exists for departure-time queries (for arrival-time queries that is Tr.C04_optimal); these are evaluated per answer by the oracle reason_spec. " + _M + ".",
-     "Lean 4 theorems (access trichotomy; NO_SERVICE_FROM_ORIGIN iff by the data incl. hour-index transparency) + regenerated tables + differential correspondence + executable oracle")
+     "max_travel_time, boarding stop reached by the access walk no later than departure - minimum waiting, first-waiting cap); Tr.C07_departure_never_to_destination - a departure-time query NEVER "
+     "answers NO_SERVICE_TO_DESTINATION (the alighting that realises the arrival chosen by the first pass is caught by the second pass: usable flag, exact label, inside the scanned part; "
+     "Tr.secondPass_counts), so every other failed departure-time query answers NO_ROUTING_FOUND; Tr.C07_route_no_service_to_destination - an arrival-time query answers NO_SERVICE_TO_DESTINATION "
+     "exactly when no connection of an admitted trip arrives at an offered stop early enough to walk to the destination by the requested time within max_travel_time (CaughtR); "
+     "Tr.C07_arrival_never_from_origin - it never answers NO_SERVICE_FROM_ORIGIN, so every other failed arrival-time query answers NO_ROUTING_FOUND. Accessibility: Tr.C07_no_access_at_place "
+     "(NO_ACCESS_AT_PLACE exactly when the router offers nothing), Tr.C07_no_service_at_place_forward / _reverse (NO_SERVICE_AT_PLACE exactly when nothing can be caught / nothing arrives in time). "
+     "Alternatives: same reason as the plain query (Tr.C10_alternatives (a)). Proved via 'a pass counts nothing iff no scanned connection is caught' and the transparency of both hour indexes. Both "
+     "reason-to-string switches and the enum order are regenerated from the source. Hypotheses of the individual theorems are subsets of the property's domain (well-formed data, non-negative "
+     "walks, clock in [0, 32 h), router lists each stop once). " + _M + "; the oracle reason_spec evaluates the classification on every answer.",
+     "Lean 4 theorems (complete reason classification for route and accessibility, both time types; hour-index transparency) + regenerated tables + differential correspondence + executable oracle")
 _reg("C08", "PROOF (full, over the model, on the property's own domain): Tr.C08_sound - every listed stop is reachable with the reported time (inductive specification Reach: access walk, or a ride "
      "of one admitted trip with permitted boarding after the minimum waiting time and permitted alighting followed by one footpath within the transfer maximum); Tr.C08_complete - every stop "
      "where such a traveller can alight within max_travel_time is listed; Tr.C08_earliest - the listed nodeTime is no later than ANY such alighting at that stop; totalTravelTime = nodeTime - "
